@@ -293,14 +293,22 @@ inline void Ctx::fail(const KV &kv, const std::string &msg) {
 // A buffer of exactly n bytes at a chosen misalignment whose surroundings are ASan-poisoned, so a one-byte
 // over-read/over-write (any alignment) or under-run (down to 8-byte granularity) is reported.
 struct XBuf {
-    uint8_t *base, *p; size_t n, total; bool pooled;
+    uint8_t *base, *p; size_t n, total; bool pooled; unsigned slot_idx = 0;
     enum { SLOT = 8192, NSLOT = 24, PAD = 64 };
+    static uint8_t *&pool() { static uint8_t *p_ = nullptr; return p_; }
+    static bool *used() { static bool u[NSLOT]; return u; }
+    static unsigned &next() { static unsigned n_ = 0; return n_; }
     XBuf(size_t n_, size_t align = 0, int fill = 0xa5) : n(n_) {
-        static uint8_t *pool = nullptr; static unsigned slot = 0;
-        if (!pool) { pool = (uint8_t *) aligned_alloc(64, (size_t) SLOT * NSLOT); memset(pool, 0, (size_t) SLOT * NSLOT); }
+        if (!pool()) { pool() = (uint8_t *) aligned_alloc(64, (size_t) SLOT * NSLOT); memset(pool(), 0, (size_t) SLOT * NSLOT); }
         total = n + 2 * PAD + 64;
-        pooled = total <= SLOT;
-        base = pooled ? pool + (size_t) SLOT * (slot++ % NSLOT) : (uint8_t *) aligned_alloc(64, (total + 63) / 64 * 64);
+        pooled = false; base = nullptr;
+        if (total <= SLOT) {
+            for (unsigned k = 0; k < NSLOT; k++) {           // next free slot (a slot stays reserved while its XBuf lives)
+                unsigned s = (next()++) % NSLOT;
+                if (!used()[s]) { used()[s] = true; pooled = true; slot_idx = s; base = pool() + (size_t) SLOT * s; break; }
+            }
+        }
+        if (!pooled) base = (uint8_t *) aligned_alloc(64, (total + 63) / 64 * 64);
         p = base + PAD + (align % 64);
         if (fill >= 0) memset(p, fill, n);
 #ifdef VH_ASAN
@@ -317,7 +325,7 @@ struct XBuf {
 #ifdef VH_ASAN
         __asan_unpoison_memory_region(base, total);
 #endif
-        if (!pooled) free(base);
+        if (!pooled) free(base); else used()[slot_idx] = false;
     }
 };
 
